@@ -4,7 +4,7 @@
 (* (device configuration, Netspoc target); TLC enumerates them and prints  *)
 (* each as JSON.  The explored space is therefore defined here.            *)
 (***************************************************************************)
-EXTENDS AclSem, TLC, Json, SequencesExt
+EXTENDS AclSem, TLC, Json, SequencesExt, Randomization
 
 CONSTANTS Fam,      \* family to enumerate
           MaxLen    \* maximal ACL length
@@ -154,7 +154,15 @@ M1 ==
               binds |-> IF v4 = <<>> THEN {} ELSE {B("inside_in", "inside", "in")}, routes |-> {}, ifs |-> {},
               parts |-> [v4 |-> v4, v6 |-> v6, pre |-> pre, app |-> app]]
 
-Init == CASE Fam = "M1" -> M1 [] Fam = "F9" -> F9 [] Fam = "F1" -> F1 [] Fam = "F2" -> F2 [] Fam = "F3" -> F3 [] Fam = "F4" -> F4 [] Fam = "F7" -> F7
+(* F1L: longer ACLs (up to MaxLen lines over 8 overlapping ACEs): a seeded random sample of the  *)
+(* pairs, drawn by TLC (Randomization!RandomSubset, seed = tlc -seed)                             *)
+PoolL == Pool \cup {Ace("permit", "ip", T("host", "h2"), T("host", "h4")), Ace("permit", "udp53", T("net", "n34"), T("any", ""))}
+F1L ==
+  \E a \in RandomSubset(170, InjSeqs(PoolL, MaxLen)), b \in RandomSubset(170, InjSeqs(PoolL, MaxLen)) :
+    /\ dev = Cfg([inside_in |-> a], NoFn, {B("inside_in", "inside", "in")}, {}, {"inside"})
+    /\ tgt = Cfg([inside_in |-> b], NoFn, {B("inside_in", "inside", "in")}, {}, {})
+
+Init == CASE Fam = "F1L" -> F1L [] Fam = "M1" -> M1 [] Fam = "F9" -> F9 [] Fam = "F1" -> F1 [] Fam = "F2" -> F2 [] Fam = "F3" -> F3 [] Fam = "F4" -> F4 [] Fam = "F7" -> F7
 Next == UNCHANGED <<dev, tgt>>
 
 \* non-vacuity of C16: the input offers several equally good matches
